@@ -118,7 +118,13 @@ PARSE_STRS = [S("1.5"), S(" 12 "), S("1_0"), S("NaN"), S("sNaN"), S("Infinity"),
               S("12345678-1234-5678-1234-567812345678"), S("{12345678-1234-5678-1234-567812345678}"),
               S("urn:uuid:12345678-1234-5678-1234-567812345678"), S("12345678123456781234567812345678"),
               S("1234"), S("١٢"), S("0"), S("0.00"), S("-0"), S(" 0 "), S("0e5"),
-              S("2020-01-01Z"), S("20200101Z"), S("2020-01-02T03:04:05Z"), S("2020-W01-1Z"), S("²"), S("①")]
+              S("2020-01-01Z"), S("20200101Z"), S("2020-01-02T03:04:05Z"), S("2020-W01-1Z"), S("²"), S("①"),
+              # the ends of the datetime range with an offset that points beyond them; a line terminator after a
+              # well-formed text (what `$` in a regular expression overlooks); other trailing characters
+              S("0001-01-01T00:00:00+01:00"), S("9999-12-31T23:59:59-01:00"), S("0001-01-01T00:00:00-23:59"),
+              S("12345678-1234-5678-1234-567812345678\n"), S("12345678123456781234567812345678\n"), S("2020-01-02\n"),
+              S("2020-01-02T03:04:05\n"), S("1.5\n"), S("12345678-1234-5678-1234-567812345678 "), S("\n2020-01-02"),
+              S("2020-01-02T24:00:00"), S("2020-01-02T03:04:60"), S("2020-01-02T03:04:05+24:00")]
 BYTESS = [B(b""), B(b"a"), B(b" a "), B(b"ab"), B(b"\xff"), B(b"aB"), B(b"\x0b")]
 DECS = [D(False, 0, 0), D1, D10, D15, DN0, D(False, 2, 0), D(True, 1, 0), D(False, 3, 0)]
 DECS_HOSTILE = [DNAN, DSNAN, DINF, DBIG, ("VDecimal", ("DInf", True))]
@@ -532,3 +538,52 @@ def contains(t, ctor: str) -> bool:
     if isinstance(t, Some):
         return contains(t.x, ctor)
     return False
+
+
+def custom_none_cases() -> list:
+    """Optionals built with a none_validator of the user's own (a NoneValidator with a coercer that refuses even None,
+    one that reads everything as None, one that reads ints and bools as None): bare, in a list, under a key, in a
+    union - (validator term, input term) pairs."""
+    INT = ("Scalar", ("KInt",), None, [], [("PMin", I(0), False)], [])
+    STRP = ("Scalar", ("KStr",), None, [("Strip",)], [("PNotBlank",)], [])
+    xs = [NONE, I(1), I(-1), TRUE, S("a"), S("  "), ("VList", []), F1]
+    out = []
+    for k in (0, 1, 2):
+        nv = ("NoneV", Some(("CoUser", N(k))))
+        for inner in (INT, STRP):
+            opt = ("OptionalV", nv, inner)
+            for x in xs:
+                out.append((opt, x))
+            out.append((("ListV", opt, [], [], None), ("VList", xs[:5])))
+            out.append((("DictAnyV", [P(S("k"), opt)], None, None, False), ("VDict", [P(S("k"), xs[k])])))
+            out.append((("UnionV", [opt, ("Scalar", ("KFloat",), None, [], [], [])]), xs[7]))
+            out.append((("UnionV", [opt, ("Scalar", ("KFloat",), None, [], [], [])]), xs[4 if inner is INT else 1]))
+    return out
+
+
+def wide_union_cases() -> list:
+    """Unions of exactly 7 and 8 variants (the typed constructor takes up to eight): values only the last variant
+    accepts, values only the first accepts, values every variant rejects - bare, in a list, under Optional."""
+    kinds = ["KInt", "KStr", "KFloat", "KBool", "KBytes", "KDecimal", "KDate", "KUuid"]
+    vals = {"KInt": I(3), "KStr": S("s"), "KFloat": F1, "KBool": TRUE, "KBytes": B(b"b"), "KDecimal": D1, "KDate": DATE1, "KUuid": UUID1}
+    out = []
+    for n in (7, 8):
+        vs = [("Scalar", (k,), None, [], [], []) for k in kinds[:n]]
+        u = ("UnionV", vs)
+        for x in (vals[kinds[n - 1]], vals[kinds[0]], NONE, ("VList", []), vals[kinds[n - 2]]):
+            out.append((u, x))
+            out.append((("ListV", u, [], [], None), ("VList", [x, vals[kinds[n - 1]]])))
+            out.append((("OptionalV", ("NoneV", None), u), x))
+    return out
+
+
+def set_children_cases() -> list:
+    """Sets whose item validator is a transparent wrapper, a user-written validator or a transforming one: rejected
+    members of every kind."""
+    STRP = ("Scalar", ("KStr",), None, [("Strip",)], [("PNotBlank",), ("PMaxLength", 2)], [])
+    DEC = ("Scalar", ("KDecimal",), Some(("CoDecimal",)), [], [("PMin", D1, False)], [])
+    kids = [("LazyV", N(0), False), ("CacheV", STRP), STRP, DEC, ("UserV", N(0), False), ("UserV", N(4), False), ("UserV", N(3), False),
+            ("OptionalV", ("NoneV", None), STRP), ("UnionV", [STRP, DEC])]
+    xs = [("VSet", [S(" abc "), S("a")]), ("VSet", [S("  ")]), ("VSet", [I(0), S("0")]), ("VSet", [I(5), S(" q ")]), ("VSet", [NONE, S("abcd")]), ("VSet", [])]
+    return [(("SetV", k, [], [], None), x) for k in kids for x in xs]
+
